@@ -88,6 +88,18 @@ def split_arms(body):
         arms.append(([p.strip() for p in pat.split("|")], expr))
     return arms
 
+CONSTS = {}
+
+NUMRX = r"(\d+|[A-Z_][A-Z0-9_]*)"
+
+def numval(tok):
+    if tok.isdigit():
+        return tok
+    if tok in CONSTS:
+        return CONSTS[tok]
+    raise Refuse("unknown constant %s in a guard" % tok)
+
+
 class P:
     """recursive descent over the whitespace-free text of one arm"""
     def __init__(self, text, env=None, cvar=None):
@@ -211,9 +223,9 @@ class P:
             return "true"
         if self.rx(r"false"):
             return "false"
-        m = self.rx(r"self\.state\.stack\.len\(\)(>=|<=|==|!=|>|<)(\d+)")
+        m = self.rx(r"self\.state\.stack\.len\(\)(>=|<=|==|!=|>|<)" + NUMRX)
         if m:
-            return self.cmp("st.length", m.group(1), m.group(2))
+            return self.cmp("st.length", m.group(1), numval(m.group(2)))
         if self.rx(r"self\.state\.stack\.is_empty\(\)"):
             return "decide (st.length = 0)"
         m = self.rx(r"self\.is_([a-z]+)_at\((\d+)\)")
@@ -249,9 +261,9 @@ class P:
                 return self.cmp(self.cvar, m.group(1), m.group(2))
         if self.rx(r"self\.state\.memo\.is_empty\(\)"):
             return "s.memo.isEmpty"
-        m = self.rx(r"self\.state\.memo\.len\(\)(>=|<=|==|!=|>|<)(\d+)")
+        m = self.rx(r"self\.state\.memo\.len\(\)(>=|<=|==|!=|>|<)" + NUMRX)
         if m:
-            return self.cmp("s.memo.length", m.group(1), m.group(2))
+            return self.cmp("s.memo.length", m.group(1), numval(m.group(2)))
         m = self.rx(r"self\.peek\(\)\.is_some_and\(\|(\w+)\|!matches!\(\*\1\.borrow\(\),StackObject::Mark\)\)")
         if m:
             return "topNonMark st"
@@ -270,6 +282,18 @@ class P:
 
 def translate(repo, known_ops):
     src = strip_comments(open(os.path.join(repo, "src/generator/validation.rs")).read())
+    CONSTS.clear()
+    for m in re.finditer(r"const\s+([A-Z_][A-Z0-9_]*)\s*:\s*(?:usize|u\d+|i\d+)\s*=\s*([^;]+);", src):
+        e = m.group(2)
+        for k, v in (("u8::BITS", "8"), ("u16::BITS", "16"), ("u32::BITS", "32"), ("u64::BITS", "64"), ("usize::BITS", "64"),
+                     ("u8::MAX", "255"), ("u16::MAX", "65535"), ("u32::MAX", "4294967295")):
+            e = e.replace(k, v)
+        e = re.sub(r"\bas\s+(?:usize|u\d+|i\d+)\b", "", e).replace("_", "")
+        if re.fullmatch(r"[0-9\s()+\-*<>]+", e):
+            try:
+                CONSTS[m.group(1)] = str(int(eval(e, {"__builtins__": {}}, {})))
+            except Exception:
+                pass
     arms = split_arms(find_match_block(src))
     seen = {}
     lines = []
